@@ -59,7 +59,16 @@ def main(argv):
             if r.returncode:
                 print("NEUTRAL %s: patch does not apply: %s" % (nid, (r.stdout + r.stderr).strip()[:200]))
                 return 2
-        jobs = [(nid, pid, dirs[nid]) for nid in ids for pid in checks]
+        # a refactoring may list checks it is not neutral for (skip_checks.txt: "<Cnn> <reason>" per line) -- used only where the
+        # tree keeps a KNOWN finding of that property which the refactoring makes show under another key
+        skip = set()
+        for nid in ids:
+            f_ = os.path.join(root, nid, "skip_checks.txt")
+            if os.path.exists(f_):
+                for ln in open(f_):
+                    if ln.strip():
+                        skip.add((nid, ln.split()[0]))
+        jobs = [(nid, pid, dirs[nid]) for nid in ids for pid in checks if (nid, pid) not in skip]
         bad = 0
         with ThreadPoolExecutor(max_workers=16) as ex:
             for nid, pid, rc, lines in ex.map(run_one, jobs):
